@@ -126,6 +126,43 @@ def build_stack(entries):
     return stack
 
 
+def final_flags(entry):
+    """(enabled, bolForce) an interface ends up with after the documented calls made on it before the run.
+
+    entry keys (all optional except the addInterface arguments ``addEnabled``/``addBolForce``):
+    reuse  dict(enabled=, bolForce=): the object was attached before with these arguments and removed again
+    pre    [[method, flag], ...] calls ``interface.enabled(flag)`` / ``interface.bolForce(flag)`` before it is added
+    post   the same after it was added
+
+    Interface.enabled(flag): "sets enabled to that flag"; Interface.bolForce(flag): "Will set the bolForce flag to
+    this boolean"; addInterface(enabled=False): "won't run any [hook]"; addInterface(bolForce=...): "If true, will
+    run at BOL hook even if disabled" (so: not forced when the argument is false, whatever the object carried).
+    addInterface(enabled=True) for an object that is disabled at that moment is not generated (the text
+    "If enabled, will run at all hooks" and the implementation disagree about it).
+    """
+    state = {"enabled": True, "bolForce": False}  # a new Interface
+
+    def attach(enabled, bol_force):
+        if not enabled:
+            state["enabled"] = False
+        state["bolForce"] = bool(bol_force)
+
+    if entry.get("reuse"):
+        attach(entry["reuse"]["enabled"], entry["reuse"]["bolForce"])
+    for method, flag in entry.get("pre", []):
+        state[method] = bool(flag)
+    attach(entry["addEnabled"], entry["addBolForce"])
+    for method, flag in entry.get("post", []):
+        state[method] = bool(flag)
+    return state["enabled"], state["bolForce"]
+
+
+def flags_before_add(entry):
+    """enabled state of the object at the moment of the (final) addInterface call."""
+    probe = dict(entry, addEnabled=True, addBolForce=False, post=[])
+    return final_flags(probe)[0]
+
+
 def select(stack, event, deferred_names=(), deferred_cycle=0, cycle=0, excluded=()):
     """Names of the interfaces called at ``event``, in calling order."""
     chosen = []
